@@ -8,7 +8,7 @@ package frugal
 
 // ---- wire format (protocol.go) --------------------------------------------------------------------
 
-//@ func lib.getMarshaler
+//@ func lib.getMarshaler(version)
 //@   ensures err == nil ==> result != nil && typeis(result, "*lib.v0ProtocolMarshaler")
 //@   ensures err != nil ==> result == nil
 
@@ -24,7 +24,7 @@ package frugal
 
 // Decoding: whatever sequence of pairs is laid out in [start, end) is accepted, and every pair of it is
 // in the result with its value. (With hsum(result) <= end - start, below, nothing else is.)
-//@ func lib.v0ProtocolMarshaler.readPairs
+//@ func lib.v0ProtocolMarshaler.readPairs(v, buff, start, end)
 //@   requires 0 <= start && end <= len(buff)
 //@   ensures laid(buff, start, end) ==> err == nil && forall(j, 0, hn(), has(result, hk(j)) && result[hk(j)] == hv(j))
 //@   loop 0 invariant laid(buff, start0, end) ==> 0 <= iter0 && iter0 <= hn() && i == ho(iter0) && forall(j, 0, iter0, has(headers, hk(j)) && headers[hk(j)] == hv(j))
@@ -36,7 +36,7 @@ package frugal
 //@   loop 0 invariant hsum(headers) <= i - start0
 //@   loop 0 decreases end - i
 
-//@ func lib.v0ProtocolMarshaler.unmarshalHeadersFromFrame
+//@ func lib.v0ProtocolMarshaler.unmarshalHeadersFromFrame(v, frame)
 //@   ensures err == nil ==> result != nil && fresh(result) && len(frame) >= 4 && 0 <= u32be(frame, 0) && u32be(frame, 0) <= len(frame) - 4
 //@   ensures err == nil && len(frame) <= 2147483647 ==> hsum(result) <= u32be(frame, 0)
 //@   ensures err != nil ==> result == nil
@@ -44,7 +44,7 @@ package frugal
 
 // The stream reader takes exactly the 4-byte size and then the announced number of bytes from the
 // reader: what follows (the Thrift payload) is left untouched.
-//@ func lib.v0ProtocolMarshaler.unmarshalHeaders
+//@ func lib.v0ProtocolMarshaler.unmarshalHeaders(v, reader)
 //@   ensures err == nil ==> result != nil && fresh(result)
 //@   ensures err == nil ==> consumed(reader) == old(consumed(reader)) + 4 + size && size >= 0
 //@   ensures err == nil ==> ncalls("io.ReadFull") == 2
@@ -52,7 +52,7 @@ package frugal
 //@   ensures err != nil ==> result == nil
 //@   modifies alloc, ghost(consumed, reader)
 
-//@ func lib.v0ProtocolMarshaler.unmarshalFrame
+//@ func lib.v0ProtocolMarshaler.unmarshalFrame(v, frame, components)
 //@   modifies alloc, components.headers, components.payload
 
 //@ iface lib.protocolMarshaler.unmarshalHeaders
@@ -62,24 +62,24 @@ package frugal
 //@ iface lib.protocolMarshaler.unmarshalFrame
 //@   same_as lib.v0ProtocolMarshaler.unmarshalFrame
 
-//@ func lib.getHeadersFromFrame
+//@ func lib.getHeadersFromFrame(frame)
 //@   ensures err == nil ==> result != nil
 //@   ensures err != nil ==> result == nil
 //@   modifies alloc
 
-//@ func lib.readHeader
+//@ func lib.readHeader(reader)
 //@   ensures err == nil ==> result != nil && fresh(result)
 //@   ensures err != nil ==> result == nil
 //@   modifies alloc, ghost(consumed, reader)
 
 // ---- FProtocol (protocol.go) ------------------------------------------------------------------------
 
-//@ func lib.FProtocolFactory.GetProtocol
+//@ func lib.FProtocolFactory.GetProtocol(f, tr)
 //@   ensures result != nil && fresh(result)
 //@   modifies alloc
 
 // The context handed to a handler is a new object carrying a fresh op id of its own.
-//@ func lib.FProtocol.ReadRequestHeader
+//@ func lib.FProtocol.ReadRequestHeader(f)
 //@   ensures err == nil ==> result != nil
 //@   ensures err != nil ==> result == nil
 //@   ensures err == nil ==> typeis(result, "*lib.FContextImpl") && fresh(cast(result, "lib.FContextImpl")) && ncalls("lib.getNextOpID") == 1
@@ -103,7 +103,7 @@ package frugal
 // context's own _opid response header and everything else it held is left alone. (Sequential
 // semantics: stated for a well-formed context no other goroutine is writing to during the call.)
 //@ pred ctxwf(x) = typeis(x, "*lib.FContextImpl") && respH(x) != reqH(x) && respH(x) != nil && reqH(x) != nil
-//@ func lib.FProtocol.ReadResponseHeader
+//@ func lib.FProtocol.ReadResponseHeader(f, ctx)
 //@   exclusive_of ctx
 //@   ensures_exclusive result == nil ==> ncalls("lib.readHeader") == 1
 //@   ensures_exclusive result == nil && old(ctxwf(ctx)) ==> forallkey(k, k != "_opid" && has(callret("lib.readHeader", 0, 0), k) ==> has(respH(ctx), k) && respH(ctx)[k] == callret("lib.readHeader", 0, 0)[k])
@@ -133,12 +133,12 @@ package frugal
 
 //@ typeinv lib.TMemoryOutputBuffer bufInv(self)
 
-//@ func lib.NewTMemoryOutputBuffer
+//@ func lib.NewTMemoryOutputBuffer(size)
 //@   constructs lib.TMemoryOutputBuffer
 //@   ensures result != nil && fresh(result) && result.limit == size && bufInv(result) && bufLen(result) == 4
 //@   modifies alloc
 
-//@ func lib.TMemoryOutputBuffer.Write
+//@ func lib.TMemoryOutputBuffer.Write(f, buf)
 //@   requires bufInv(f)
 //@   ensures bufInv(f) && f.limit == old(f.limit)
 //@   ensures (err == nil) == (f.limit == 0 || old(bufLen(f)) + len(buf) <= f.limit)
@@ -146,7 +146,7 @@ package frugal
 //@   ensures err != nil ==> result0 == 0 && bufLen(f) == 4 && ttype(err) == TRANSPORT_EXCEPTION_REQUEST_TOO_LARGE && implements(err, "thrift.TTransportException")
 //@   modifies ghost(buflen, f.TMemoryBuffer.Buffer)
 
-//@ func lib.TMemoryOutputBuffer.WriteString
+//@ func lib.TMemoryOutputBuffer.WriteString(f, s)
 //@   requires bufInv(f)
 //@   ensures bufInv(f) && f.limit == old(f.limit)
 //@   ensures (err == nil) == (f.limit == 0 || old(bufLen(f)) + len(s) <= f.limit)
@@ -154,7 +154,7 @@ package frugal
 //@   ensures err != nil ==> result0 == 0 && bufLen(f) == 4 && ttype(err) == TRANSPORT_EXCEPTION_REQUEST_TOO_LARGE && implements(err, "thrift.TTransportException")
 //@   modifies ghost(buflen, f.TMemoryBuffer.Buffer)
 
-//@ func lib.TMemoryOutputBuffer.WriteByte
+//@ func lib.TMemoryOutputBuffer.WriteByte(f, c)
 //@   requires bufInv(f)
 //@   ensures bufInv(f) && f.limit == old(f.limit)
 //@   ensures (result == nil) == (f.limit == 0 || old(bufLen(f)) + 1 <= f.limit)
@@ -162,28 +162,28 @@ package frugal
 //@   ensures result != nil ==> bufLen(f) == 4 && ttype(result) == TRANSPORT_EXCEPTION_REQUEST_TOO_LARGE && implements(result, "thrift.TTransportException")
 //@   modifies ghost(buflen, f.TMemoryBuffer.Buffer)
 
-//@ func lib.TMemoryOutputBuffer.WriteRune
+//@ func lib.TMemoryOutputBuffer.WriteRune(f, r)
 //@   requires bufInv(f)
 //@   ensures bufInv(f) && f.limit == old(f.limit)
 //@   modifies ghost(buflen, f.TMemoryBuffer.Buffer), alloc
 
-//@ func lib.TMemoryOutputBuffer.ReadFrom
+//@ func lib.TMemoryOutputBuffer.ReadFrom(f, r)
 //@   requires bufInv(f)
 //@   ensures bufInv(f) && f.limit == old(f.limit)
 //@   modifies *
 //@   loop 0 invariant bufInv(f) && f == f0 && f.limit == old(f.limit) && len(chunk) == 512
 
-//@ func lib.TMemoryOutputBuffer.Reset
+//@ func lib.TMemoryOutputBuffer.Reset(f)
 //@   ensures bufInv(f)
 //@   ensures bufLen(f) == 4 && f.limit == old(f.limit)
 //@   modifies ghost(buflen, f.TMemoryBuffer.Buffer)
 
-//@ func lib.TMemoryOutputBuffer.Bytes
+//@ func lib.TMemoryOutputBuffer.Bytes(f)
 //@   requires bufInv(f)
 //@   ensures len(result) == bufLen(f) && bufLen(f) == old(bufLen(f))
 //@   modifies alloc, elems(result)
 
-//@ func lib.TMemoryOutputBuffer.HasWriteData
+//@ func lib.TMemoryOutputBuffer.HasWriteData(f)
 //@   requires bufInv(f)
 //@   ensures result == (bufLen(f) > 4)
 
@@ -196,42 +196,42 @@ package frugal
 //@ immutable lib.TMemoryOutputBuffer.limit, lib.TMemoryOutputBuffer.TMemoryBuffer
 //@ immutable lib.fBaseTransport.requestSizeLimit, lib.fHTTPTransport.fBaseTransport, lib.fHTTPTransport.responseSizeLimit
 
-//@ func lib.IsErrTooLarge
+//@ func lib.IsErrTooLarge(err)
 //@   ensures result == (err != nil && implements(err, "thrift.TTransportException") && (ttype(err) == TRANSPORT_EXCEPTION_REQUEST_TOO_LARGE || ttype(err) == TRANSPORT_EXCEPTION_RESPONSE_TOO_LARGE))
 
 // The headers go to the transport in one Write; a size-limit error from it is returned unchanged.
-//@ func lib.FProtocol.writeHeader
+//@ func lib.FProtocol.writeHeader(f, headers)
 //@   requires hsum(headers) <= 2147483642                  // assumption: less than 2 GiB of headers
 //@   ensures ncalls("io.Writer.Write") == 1
 //@   ensures tooLargeErr(callret("io.Writer.Write", 0, 1)) ==> result == callret("io.Writer.Write", 0, 1)
 //@   ensures callret("io.Writer.Write", 0, 1) != nil ==> result != nil
 //@   modifies *
 
-//@ func lib.fNatsTransport.checkMessageSize
+//@ func lib.fNatsTransport.checkMessageSize(f, data)
 //@   ensures (result != nil) == (len(data) > natsMaxMessageSize)
 //@   ensures result != nil ==> ttype(result) == TRANSPORT_EXCEPTION_REQUEST_TOO_LARGE && implements(result, "thrift.TTransportException")
 
-//@ func lib.fNatsTransport.getClosedConditionError
+//@ func lib.fNatsTransport.getClosedConditionError(f, prefix)
 //@   ensures result != nil && ttype(result) == TRANSPORT_EXCEPTION_NOT_OPEN && implements(result, "thrift.TTransportException")
 
-//@ func lib.fHTTPTransport.getClosedConditionError
+//@ func lib.fHTTPTransport.getClosedConditionError(h, prefix)
 //@   ensures result != nil && ttype(result) == TRANSPORT_EXCEPTION_NOT_OPEN && implements(result, "thrift.TTransportException")
 
 // Over the limit: nothing is handed to NATS and the call fails. A REQUEST_TOO_LARGE error is
 // produced only for a message that really is over the limit.
-//@ func lib.fNatsTransport.Oneway
+//@ func lib.fNatsTransport.Oneway(f, ctx, data)
 //@   ensures len(data) > natsMaxMessageSize ==> result != nil && ncalls("nats.go.Conn.PublishRequest") == 0
 //@   ensures len(data) > natsMaxMessageSize ==> ttype(result) == TRANSPORT_EXCEPTION_REQUEST_TOO_LARGE || ttype(result) == TRANSPORT_EXCEPTION_NOT_OPEN
 //@   ensures len(data) <= natsMaxMessageSize && ncalls("nats.go.Conn.PublishRequest") == 0 && result != nil ==> ttype(result) == TRANSPORT_EXCEPTION_NOT_OPEN
 //@   modifies *
 
-//@ func lib.fNatsTransport.Request
+//@ func lib.fNatsTransport.Request(f, ctx, data)
 //@   ensures len(data) > natsMaxMessageSize ==> err != nil && ncalls("nats.go.Conn.PublishRequest") == 0
 //@   ensures len(data) > natsMaxMessageSize && ncalls("lib.fNatsTransport.checkMessageSize") == 1 ==> ttype(err) == TRANSPORT_EXCEPTION_REQUEST_TOO_LARGE && implements(err, "thrift.TTransportException")
 //@   ensures len(data) <= natsMaxMessageSize && ncalls("lib.fNatsTransport.checkMessageSize") == 1 && ncalls("nats.go.Conn.PublishRequest") == 0 ==> err != nil && ncalls("lib.getOpID") == 1
 //@   modifies *
 
-//@ func lib.fHTTPTransport.Request
+//@ func lib.fHTTPTransport.Request(h, ctx, data)
 //@   requires h.requestSizeLimit <= 9223372036854775807      // assumption: the configured limit fits an int
 //@   requires h.requestSizeLimit == 0 || h.requestSizeLimit >= 4    // assumption: a positive limit leaves room for the 4-byte frame prefix
 //@   ensures h.requestSizeLimit > 0 && len(data) > h.requestSizeLimit ==> err != nil && ncalls("lib.fHTTPTransport.makeRequest") == 0
@@ -241,7 +241,7 @@ package frugal
 
 // HTTP status 413 from the server is reported as RESPONSE_TOO_LARGE.
 // The HTTP round trip gets a context whose timeout is the FContext's (C13).
-//@ func lib.fHTTPTransport.makeRequest
+//@ func lib.fHTTPTransport.makeRequest(h, fCtx, requestPayload)
 //@   ensures ncalls("http.Client.Do") == 1 ==> ncalls("context.WithTimeout") == 1 && ncalls("lib.FContext.Timeout") == 1 && ncalls("http.Request.WithContext") == 1
 //@   ensures ncalls("http.Client.Do") == 1 ==> callarg("context.WithTimeout", 0, 1) == callret("lib.FContext.Timeout", 0, 0)
 //@   ensures ncalls("http.Client.Do") == 1 ==> callarg("http.Request.WithContext", 0, 1) == callret("context.WithTimeout", 0, 0) && callarg("http.Client.Do", 0, 1) == callret("http.Request.WithContext", 0, 0)
@@ -249,7 +249,7 @@ package frugal
 //@   modifies *
 
 // The request message is assembled in a buffer limited to the transport's request size limit.
-//@ func lib.FStandardClient.prepareMessage
+//@ func lib.FStandardClient.prepareMessage(client, ctx, fctx, method, args, kind)
 //@   ensures err == nil ==> client.limit == 0 || len(result) <= max(client.limit, 4)
 //@   ensures ncalls("lib.NewTMemoryOutputBuffer") == 1
 //@   ensures callarg("lib.NewTMemoryOutputBuffer", 0, 0) == client.limit
@@ -257,12 +257,12 @@ package frugal
 
 // An application exception 100 never reaches the caller as such: it is reported as the transport
 // error RESPONSE_TOO_LARGE.
-//@ func lib.FStandardClient.processReply
+//@ func lib.FStandardClient.processReply(client, ctx, fctx, method, result, resultTransport)
 //@   ensures ncalls("thrift.TApplicationException.Read") == 1 && callret("thrift.TApplicationException.Read", 0, 0) == nil && ncalls("thrift.TProtocol.ReadMessageEnd") == 1 && callret("thrift.TProtocol.ReadMessageEnd", 0, 0) == nil && atype(error0) == APPLICATION_EXCEPTION_RESPONSE_TOO_LARGE ==> result != nil && implements(result, "thrift.TTransportException") && ttype(result) == TRANSPORT_EXCEPTION_RESPONSE_TOO_LARGE
 //@   ensures ncalls("thrift.TApplicationException.Read") == 1 && callret("thrift.TApplicationException.Read", 0, 0) == nil && ncalls("thrift.TProtocol.ReadMessageEnd") == 1 && callret("thrift.TProtocol.ReadMessageEnd", 0, 0) == nil && atype(error0) != APPLICATION_EXCEPTION_RESPONSE_TOO_LARGE ==> result == error0
 //@   modifies *
 
-//@ func lib.FBaseProcessorFunction.trapError
+//@ func lib.FBaseProcessorFunction.trapError(f, ctx, fctx, oprot, method, err)
 //@   ensures tooLargeErr(err) ==> result == nil && ncalls("lib.FBaseProcessorFunction.sendError") == 1
 //@   ensures tooLargeErr(err) ==> callarg("lib.FBaseProcessorFunction.sendError", 0, 4) == APPLICATION_EXCEPTION_RESPONSE_TOO_LARGE && callarg("lib.FBaseProcessorFunction.sendError", 0, 3) == oprot
 //@   ensures !tooLargeErr(err) ==> result == err && ncalls("lib.FBaseProcessorFunction.sendError") == 0
@@ -272,13 +272,13 @@ package frugal
 
 //@ immutable lib.fStompPublisherTransport.maxPublishSize
 
-//@ func lib.fNatsPublisherTransport.Publish
+//@ func lib.fNatsPublisherTransport.Publish(n, topic, data)
 //@   ensures len(data) > natsMaxMessageSize ==> result != nil && ncalls("nats.go.Conn.Publish") == 0
 //@   ensures len(data) > natsMaxMessageSize ==> ttype(result) == TRANSPORT_EXCEPTION_REQUEST_TOO_LARGE || ncalls("lib.fNatsPublisherTransport.getClosedConditionError") == 1
 //@   ensures len(data) <= natsMaxMessageSize && ncalls("nats.go.Conn.Publish") == 0 ==> ncalls("lib.fNatsPublisherTransport.getClosedConditionError") == 1
 //@   modifies *
 
-//@ func lib.fStompPublisherTransport.Publish
+//@ func lib.fStompPublisherTransport.Publish(m, topic, data)
 //@   ensures m.maxPublishSize > 0 && len(data) > m.maxPublishSize ==> result != nil && ncalls("stomp.Conn.Send") == 0
 //@   ensures m.maxPublishSize > 0 && len(data) > m.maxPublishSize ==> ttype(result) == TRANSPORT_EXCEPTION_REQUEST_TOO_LARGE || ttype(result) == TRANSPORT_EXCEPTION_NOT_OPEN
 //@   ensures (m.maxPublishSize <= 0 || len(data) <= m.maxPublishSize) && ncalls("stomp.Conn.Send") == 0 ==> result != nil && ttype(result) == TRANSPORT_EXCEPTION_NOT_OPEN
@@ -289,12 +289,12 @@ package frugal
 // (the contract of SendReply is stated once, in the C14 section below)
 
 // The client buffers requests in a buffer limited to what the transport says it can carry.
-//@ func lib.NewFStandardClient
+//@ func lib.NewFStandardClient(provider)
 //@   ensures result != nil && ncalls("lib.FTransport.GetRequestSizeLimit") == 1
 //@   ensures result.limit == callret("lib.FTransport.GetRequestSizeLimit", 0, 0)
 //@   modifies *
 
-//@ func lib.NewFScopeClient
+//@ func lib.NewFScopeClient(provider)
 //@   ensures result != nil && ncalls("lib.FPublisherTransport.GetPublishSizeLimit") == 1
 //@   ensures result.limit == callret("lib.FPublisherTransport.GetPublishSizeLimit", 0, 0)
 //@   modifies *
@@ -304,7 +304,7 @@ package frugal
 //@ immutable lib.frameWrapper.reply, lib.frameWrapper.frameBytes, lib.frameWrapper.ephemeralProperties
 // One frame: fresh input and output buffers, one Process call, and the reply is published to the frame's
 // own reply subject exactly when the processor left something in the output buffer (C14).
-//@ func lib.fNatsServer.processFrame
+//@ func lib.fNatsServer.processFrame(f, frame)
 //@   ensures ncalls("lib.FProcessor.Process") <= 1 && ncalls("nats.go.Conn.Publish") <= 1
 //@   ensures ncalls("nats.go.Conn.Publish") == 1 ==> callarg("nats.go.Conn.Publish", 0, 1) == frame.reply && ncalls("lib.FProcessor.Process") == 1 && callret("lib.FProcessor.Process", 0, 0) == nil && callret("lib.TMemoryOutputBuffer.HasWriteData", 0, 0)
 //@   ensures ncalls("lib.FProcessor.Process") == 1 && callret("lib.FProcessor.Process", 0, 0) == nil && callret("lib.TMemoryOutputBuffer.HasWriteData", 0, 0) ==> ncalls("nats.go.Conn.Publish") == 1 && result == callret("nats.go.Conn.Publish", 0, 0)
@@ -314,11 +314,11 @@ package frugal
 //@   ensures ncalls("nats.go.Conn.Publish") == 1 ==> len(callarg("nats.go.Conn.Publish", 0, 2)) <= natsMaxMessageSize
 //@   modifies *
 
-//@ func lib.fNatsPublisherTransport.getClosedConditionError
+//@ func lib.fNatsPublisherTransport.getClosedConditionError(n, prefix)
 //@   ensures result != nil && ttype(result) == TRANSPORT_EXCEPTION_NOT_OPEN && implements(result, "thrift.TTransportException")
 
 // TFramedTransport.Read calls itself once, on a temporary buffer of exactly the remaining frame size.
-//@ func lib.TFramedTransport.Read
+//@ func lib.TFramedTransport.Read(p, buf)
 //@   decreases len(buf)
 //@   modifies *
 
@@ -333,12 +333,12 @@ package frugal
 
 //@ fold hsum(k string, v string) = 8 + len(k) + len(v)
 
-//@ func lib.v0ProtocolMarshaler.calculateHeaderSize
+//@ func lib.v0ProtocolMarshaler.calculateHeaderSize(v, headers)
 //@   requires hsum(headers) <= 2147483647                  // assumption: less than 2 GiB of headers
 //@   ensures result == hsum(headers)
 //@   loop 0 invariant size == hsum(headers, visited(headers)) && headers == headers0
 
-//@ func lib.v0ProtocolMarshaler.marshalHeaders
+//@ func lib.v0ProtocolMarshaler.marshalHeaders(v, headers)
 //@   requires hsum(headers) <= 2147483642                  // assumption: less than 2 GiB of headers
 //@   ensures len(result) == hsum(headers) + 5 && result != nil && fresh(result)
 //@   ensures result[0] == 0 && u32be(result, 1) == hsum(headers)
@@ -348,7 +348,7 @@ package frugal
 
 // Re-framing: the new frame carries the merged headers followed by the untouched payload, and its size
 // field counts everything after itself.
-//@ func lib.v0ProtocolMarshaler.addHeadersToFrame
+//@ func lib.v0ProtocolMarshaler.addHeadersToFrame(v, frame, headers)
 //@   requires len(frame) >= 5
 //@   requires hsum(headers) + len(frame) <= 2147483000                   // assumption: less than 2 GiB in total
 //@   ensures err == nil ==> result != nil && len(result) >= 9 && u32be(result, 0) == len(result) - 4
@@ -360,10 +360,10 @@ package frugal
 //@ iface lib.protocolMarshaler.addHeadersToFrame
 //@   same_as lib.v0ProtocolMarshaler.addHeadersToFrame
 
-//@ func lib.addHeadersToFrame
+//@ func lib.addHeadersToFrame(frame, headers)
 //@   requires hsum(headers) + len(frame) <= 2147483000
 
-//@ func lib.prependFrameSize
+//@ func lib.prependFrameSize(buf)
 //@   ensures len(result) == len(buf) + 4 && u32be(result, 0) == len(buf) % 4294967296
 //@   modifies alloc
 
@@ -381,7 +381,7 @@ package frugal
 //@ pred reqH(c) = cast(c, "lib.FContextImpl").requestHeaders
 //@ pred respH(c) = cast(c, "lib.FContextImpl").responseHeaders
 
-//@ func lib.NewFContext
+//@ func lib.NewFContext(correlationID)
 //@   ensures result != nil && typeis(result, "*lib.FContextImpl") && fresh(cast(result, "lib.FContextImpl"))
 //@   ensures ncalls("lib.getNextOpID") == 1
 //@   ensures has(reqH(result), "_opid") && reqH(result)["_opid"] == callret("lib.getNextOpID", 0, 0)
@@ -389,7 +389,7 @@ package frugal
 //@   modifies *
 
 // Accessors hand out fresh copies: same keys, same values, different map.
-//@ func lib.FContextImpl.RequestHeaders
+//@ func lib.FContextImpl.RequestHeaders(c)
 //@   ensures result != nil && fresh(result) && dom(result) == dom(c.requestHeaders)
 //@   ensures forallkey(k, has(result, k) ==> result[k] == c.requestHeaders[k])
 //@   modifies alloc
@@ -397,7 +397,7 @@ package frugal
 //@   loop 0 invariant forallkey(k, has(headers, k) ==> headers[k] == c.requestHeaders[k])
 //@   loop 0 invariant dom(c.requestHeaders) == loopentry(dom(c.requestHeaders)) && vals(c.requestHeaders) == loopentry(vals(c.requestHeaders))
 
-//@ func lib.FContextImpl.ResponseHeaders
+//@ func lib.FContextImpl.ResponseHeaders(c)
 //@   ensures result != nil && fresh(result) && dom(result) == dom(c.responseHeaders)
 //@   ensures forallkey(k, has(result, k) ==> result[k] == c.responseHeaders[k])
 //@   modifies alloc
@@ -405,13 +405,13 @@ package frugal
 //@   loop 0 invariant forallkey(k, has(headers, k) ==> headers[k] == c.responseHeaders[k])
 //@   loop 0 invariant dom(c.responseHeaders) == loopentry(dom(c.responseHeaders)) && vals(c.responseHeaders) == loopentry(vals(c.responseHeaders))
 
-//@ func lib.FContextImpl.EphemeralProperties
+//@ func lib.FContextImpl.EphemeralProperties(c)
 //@   ensures result != nil && fresh(result)
 //@   modifies alloc
 //@   loop 0 invariant properties != nil && fresh(properties) && c == c0
 
 // A clone has its own maps, equal to the original's except for a fresh op id.
-//@ func lib.FContextImpl.Clone
+//@ func lib.FContextImpl.Clone(c)
 //@   ensures result != nil && typeis(result, "*lib.FContextImpl") && fresh(cast(result, "lib.FContextImpl"))
 //@   ensures ncalls("lib.getNextOpID") == 1
 //@   ensures reqH(result)["_opid"] == callret("lib.getNextOpID", 0, 0) && has(reqH(result), "_opid")
@@ -423,13 +423,13 @@ package frugal
 //@   modifies *
 
 // The free function Clone does the same for any FContext.
-//@ func lib.Clone
+//@ func lib.Clone(ctx)
 //@   ensures result != nil
 //@   modifies *
 
 // Mutators change exactly one entry of one map of the receiver, under the write lock, and return the
 // receiver itself.
-//@ func lib.FContextImpl.AddRequestHeader
+//@ func lib.FContextImpl.AddRequestHeader(c, name, value)
 //@   noescape
 //@   ensures_exclusive c.responseHeaders == old(c.responseHeaders) && c.requestHeaders == old(c.requestHeaders)
 //@   ensures_exclusive forallkey(k, k != name ==> has(c.requestHeaders, k) == old(has(c.requestHeaders, k)) && c.requestHeaders[k] == old(c.requestHeaders[k]))
@@ -438,7 +438,7 @@ package frugal
 //@   ensures has(c.requestHeaders, name) && c.requestHeaders[name] == value
 //@   modifies mapof(c.requestHeaders), alloc
 
-//@ func lib.FContextImpl.AddResponseHeader
+//@ func lib.FContextImpl.AddResponseHeader(c, name, value)
 //@   noescape
 //@   ensures_exclusive c.responseHeaders == old(c.responseHeaders) && c.requestHeaders == old(c.requestHeaders)
 //@   ensures_exclusive forallkey(k, k != name ==> has(c.responseHeaders, k) == old(has(c.responseHeaders, k)) && c.responseHeaders[k] == old(c.responseHeaders[k]))
@@ -447,12 +447,12 @@ package frugal
 //@   ensures has(c.responseHeaders, name) && c.responseHeaders[name] == value
 //@   modifies mapof(c.responseHeaders), alloc
 
-//@ func lib.FContextImpl.CorrelationID
+//@ func lib.FContextImpl.CorrelationID(c)
 //@   noescape
 //@   ensures_exclusive result == ite(has(c.requestHeaders, "_cid"), c.requestHeaders["_cid"], "")
 //@   ensures result == c.requestHeaders["_cid"] || (!has(c.requestHeaders, "_cid") && result == "")
 
-//@ func lib.setResponseOpID
+//@ func lib.setResponseOpID(ctx, id)
 //@   inline
 
 //@ iface lib.FContextWithEphemeralProperties.Clone
@@ -482,11 +482,11 @@ package frugal
 //@   ensures result == mwapp(self, arg0)
 
 // The base handler is a closure over the wrapped function (named mwbase by this contract).
-//@ func lib.newInvocationHandler
+//@ func lib.newInvocationHandler(method)
 //@   ensures result != nil
 //@   modifies alloc
 
-//@ func lib.composeMiddleware
+//@ func lib.composeMiddleware(method, middleware)
 //@   modifies alloc
 //@   ensures ncalls("lib.newInvocationHandler") == 1
 //@   ensures result == mwfold(elems(middleware), off(middleware), len(middleware), callret("lib.newInvocationHandler", 0, 0))
@@ -494,22 +494,22 @@ package frugal
 //@   loop 0 invariant handler == mwfold(elems(middleware), off(middleware), rangeindex + 1, callret("lib.newInvocationHandler", 0, 0))
 
 // Adding a middleware wraps the current handler once more (outermost).
-//@ func lib.Method.AddMiddleware
+//@ func lib.Method.AddMiddleware(m, middleware)
 //@   ensures m.handler == mwapp(middleware, old(m.handler))
 //@   ensures m.proxiedStruct == old(m.proxiedStruct)
 //@   modifies m.handler
 
-//@ func lib.FBaseProcessorFunction.AddMiddleware
+//@ func lib.FBaseProcessorFunction.AddMiddleware(f, middleware)
 //@   ensures f.handler.handler == mwapp(middleware, old(f.handler.handler)) && f.handler == old(f.handler)
 //@   modifies f.handler.handler
 
 // Providers hand out a copy of their middleware list: same length, same elements, fresh backing array.
-//@ func lib.FScopeProvider.GetMiddleware
+//@ func lib.FScopeProvider.GetMiddleware(p)
 //@   ensures len(result) == len(p.middleware) && fresh(result)
 //@   ensures forall(i, 0, len(result), result[i] == p.middleware[i])
 //@   modifies alloc
 
-//@ func lib.FServiceProvider.GetMiddleware
+//@ func lib.FServiceProvider.GetMiddleware(f)
 //@   ensures len(result) == len(f.middleware) && fresh(result)
 //@   ensures forall(i, 0, len(result), result[i] == f.middleware[i])
 //@   modifies alloc
@@ -520,28 +520,28 @@ package frugal
 //@   functype
 //@   modifies *
 
-//@ func lib.Method.Invoke
+//@ func lib.Method.Invoke(m, args)
 //@   ensures ncalls("lib.InvocationHandler") == 1
 //@   ensures callarg("lib.InvocationHandler", 0, 0) == old(m.handler)
 //@   ensures result == callret("lib.InvocationHandler", 0, 0)
 //@   modifies *
 
 // A Method starts with the composition of the base handler and the given middleware list.
-//@ func lib.NewMethod
+//@ func lib.NewMethod(proxiedHandler, method, methodName, middleware)
 //@   ensures ncalls("lib.composeMiddleware") == 1
 //@   ensures result.handler == callret("lib.composeMiddleware", 0, 0)
 //@   modifies *
 
 // A processor hands a new middleware to every registered function.
-//@ func lib.FBaseProcessor.AddMiddleware
+//@ func lib.FBaseProcessor.AddMiddleware(f, middleware)
 //@   modifies *
 
-//@ func lib.FBaseProcessorFunction.InvokeMethod
+//@ func lib.FBaseProcessorFunction.InvokeMethod(f, args)
 //@   ensures ncalls("lib.Method.Invoke") == 1
 //@   modifies *
 
 // The base handler calls the wrapped function exactly once.
-//@ func lib.newInvocationHandler$1
+//@ func lib.newInvocationHandler$1(_, _, args)
 //@   ensures ncalls("reflect.Value.Call") == 1
 //@   modifies *
 //@   loop 0 invariant len(argValues) == len(args) && args == args0 && 0 - 1 <= rangeindex && rangeindex <= len(args)
@@ -550,31 +550,31 @@ package frugal
 // ---- request context on the wire (C09) -----------------------------------------------------------------
 
 // What goes on the wire is exactly the context's own header map.
-//@ func lib.FProtocol.WriteRequestHeader
+//@ func lib.FProtocol.WriteRequestHeader(f, ctx)
 //@   ensures ncalls("lib.FContext.RequestHeaders") == 1 && ncalls("lib.FProtocol.writeHeader") == 1
 //@   ensures callarg("lib.FProtocol.writeHeader", 0, 1) == callret("lib.FContext.RequestHeaders", 0, 0)
 //@   ensures result == callret("lib.FProtocol.writeHeader", 0, 0)
 //@   modifies *
 
-//@ func lib.FProtocol.WriteResponseHeader
+//@ func lib.FProtocol.WriteResponseHeader(f, ctx)
 //@   ensures ncalls("lib.FContext.ResponseHeaders") == 1 && ncalls("lib.FProtocol.writeHeader") == 1
 //@   ensures callarg("lib.FProtocol.writeHeader", 0, 1) == callret("lib.FContext.ResponseHeaders", 0, 0)
 //@   ensures result == callret("lib.FProtocol.writeHeader", 0, 0)
 //@   modifies *
 
 // The timeout travels as whole milliseconds in the _timeout header.
-//@ func lib.FContextImpl.SetTimeout
+//@ func lib.FContextImpl.SetTimeout(c, timeout)
 //@   noescape
 //@   ensures has(c.requestHeaders, "_timeout") && c.requestHeaders["_timeout"] == fmtint(timeout / 1000000, 10)
 //@   modifies mapof(c.requestHeaders), alloc
 
-//@ func lib.FContextImpl.Timeout
+//@ func lib.FContextImpl.Timeout(c)
 //@   noescape
 //@   ensures_exclusive has(c.requestHeaders, "_timeout") && okint(c.requestHeaders["_timeout"]) && 0 - 9000000000000 <= parseint(c.requestHeaders["_timeout"]) && parseint(c.requestHeaders["_timeout"]) <= 9000000000000 ==> result == parseint(c.requestHeaders["_timeout"]) * 1000000
 //@   ensures_exclusive !has(c.requestHeaders, "_timeout") ==> result == defaultTimeout
 
 // A positive timeout becomes the deadline of the context handed to Thrift.
-//@ func lib.ToContext
+//@ func lib.ToContext(fctx)
 //@   ensures ncalls("lib.FContext.Timeout") == 1
 //@   ensures callret("lib.FContext.Timeout", 0, 0) > 0 ==> ncalls("context.WithTimeout") == 1
 //@   ensures callret("lib.FContext.Timeout", 0, 0) > 0 ==> callarg("context.WithTimeout", 0, 1) == callret("lib.FContext.Timeout", 0, 0)
@@ -586,12 +586,12 @@ package frugal
 //@ immutable lib.BaseFTransportMonitor.MaxReopenAttempts, lib.BaseFTransportMonitor.InitialWait, lib.BaseFTransportMonitor.MaxWait
 //@ immutable lib.monitorRunner.monitor, lib.monitorRunner.transport, lib.monitorRunner.closedChannel
 
-//@ func lib.BaseFTransportMonitor.OnClosedUncleanly
+//@ func lib.BaseFTransportMonitor.OnClosedUncleanly(m, cause)
 //@   ensures result0 == (m.MaxReopenAttempts > 0) && result1 == m.InitialWait
 
 // Another attempt is allowed only while fewer than MaxReopenAttempts have been made, and the next wait
 // never exceeds MaxWait (doubling may wrap around: the result is then negative, which Sleep ignores).
-//@ func lib.BaseFTransportMonitor.OnReopenFailed
+//@ func lib.BaseFTransportMonitor.OnReopenFailed(m, prevAttempts, prevWait)
 //@   ensures result0 == (prevAttempts < m.MaxReopenAttempts)
 //@   ensures result1 <= m.MaxWait || (!result0 && result1 == 0)
 //@   ensures !result0 ==> result1 == 0
@@ -607,7 +607,7 @@ package frugal
 
 // At most max(MaxReopenAttempts, 1) Open calls, every sleep at most MaxWait, success reported exactly
 // when an Open succeeded.
-//@ func lib.monitorRunner.attemptReopen
+//@ func lib.monitorRunner.attemptReopen(r, InitialWait)
 //@   requires InitialWait <= mon(r).MaxWait && mon(r).MaxWait >= 0
 //@   ensures opened(r.transport) - old(opened(r.transport)) <= max(mon(r).MaxReopenAttempts, 1)
 //@   ensures result == (ncalls("lib.FTransportMonitor.OnReopenSucceeded") == 1)
@@ -619,11 +619,11 @@ package frugal
 //@   loop 0 decreases max(mon(r).MaxReopenAttempts, 1) - prevAttempts + ite(reopen, 1, 0)
 
 // A monitor configured with InitialWait > MaxWait contradicts itself; excluded.
-//@ func lib.monitorRunner.run
+//@ func lib.monitorRunner.run(r)
 //@   requires mon(r).InitialWait <= mon(r).MaxWait && mon(r).MaxWait >= 0
 //@   modifies *
 
-//@ func lib.monitorRunner.handleUncleanClose
+//@ func lib.monitorRunner.handleUncleanClose(r, cause)
 //@   requires mon(r).InitialWait <= mon(r).MaxWait && mon(r).MaxWait >= 0
 //@   ensures opened(r.transport) - old(opened(r.transport)) <= mon(r).MaxReopenAttempts
 //@   modifies *
@@ -638,15 +638,15 @@ package frugal
 //@   invariant self.isOpen ==> self.closeChan != nil && clen(self.closeChan) == 0 && ccap(self.closeChan) == 1 && !cclosed(self.closeChan)
 //@ immutable lib.fAdapterTransport.transport, lib.fAdapterTransport.registry
 
-//@ func lib.fAdapterTransport.Open
+//@ func lib.fAdapterTransport.Open(f)
 //@   ensures result == nil ==> ncalls("lib.fAdapterTransport.readLoop") == 0
 //@   modifies *
 
-//@ func lib.fAdapterTransport.close
+//@ func lib.fAdapterTransport.close(f, cause)
 //@   check-close
 //@   modifies *
 
-//@ func lib.fAdapterTransport.Close
+//@ func lib.fAdapterTransport.Close(f)
 //@   modifies *
 // Only close() posts to the close signal, and only with the transport mutex held.
 //@ container lib.fAdapterTransport.closeSignal sendlocked
@@ -655,14 +655,14 @@ package frugal
 // ---- registry view (C01) -------------------------------------------------------------------------------------
 // Sequential view of the registry map (exclusive clauses); the locking discipline is proved in the normal pass.
 
-//@ func lib.fRegistryImpl.Register
+//@ func lib.fRegistryImpl.Register(c, ctx, resultC)
 //@   ensures ncalls("lib.getOpID") == 1
 //@   ensures_exclusive result == nil && callret("lib.getOpID", 0, 1) == nil ==> has(c.channels, callret("lib.getOpID", 0, 0)) && c.channels[callret("lib.getOpID", 0, 0)] == resultC && !old(has(c.channels, callret("lib.getOpID", 0, 0)))
 //@   ensures_exclusive result != nil ==> dom(c.channels) == old(dom(c.channels)) && vals(c.channels) == old(vals(c.channels))
 //@   ensures_exclusive result == nil ==> forall(k, 0, 18446744073709551616, k != callret("lib.getOpID", 0, 0) ==> has(c.channels, k) == old(has(c.channels, k)) && c.channels[k] == old(c.channels[k]))
 //@   modifies mapof(c.channels), alloc
 
-//@ func lib.fRegistryImpl.Unregister
+//@ func lib.fRegistryImpl.Unregister(c, ctx)
 //@   ensures ncalls("lib.getOpID") == 1
 //@   ensures_exclusive callret("lib.getOpID", 0, 1) == nil ==> !has(c.channels, callret("lib.getOpID", 0, 0))
 //@   ensures_exclusive forall(k, 0, 18446744073709551616, k != callret("lib.getOpID", 0, 0) ==> has(c.channels, k) == old(has(c.channels, k)) && c.channels[k] == old(c.channels[k]))
@@ -670,7 +670,7 @@ package frugal
 
 // Routing is by the op id parsed from the frame's own headers and nothing else.
 //@ specfn parseuint(Str) Int
-//@ func lib.fRegistryImpl.Execute
+//@ func lib.fRegistryImpl.Execute(c, frame)
 //@   ensures result == nil ==> ncalls("lib.fRegistryImpl.dispatch") == 1 && ncalls("lib.getHeadersFromFrame") == 1 && ncalls("strconv.ParseUint") == 1
 //@   ensures result == nil ==> callarg("lib.fRegistryImpl.dispatch", 0, 1) == callret("strconv.ParseUint", 0, 0) && callarg("lib.fRegistryImpl.dispatch", 0, 2) == frame
 //@   ensures result == nil ==> callarg("strconv.ParseUint", 0, 0) == callret("lib.getHeadersFromFrame", 0, 0)["_opid"] && callarg("lib.getHeadersFromFrame", 0, 0) == frame
@@ -680,7 +680,7 @@ package frugal
 
 // dispatch never changes the registry; the only thing it can do is offer the frame to the channel
 // registered for that op id (at most one non-blocking send).
-//@ func lib.fRegistryImpl.dispatch
+//@ func lib.fRegistryImpl.dispatch(c, opid, frame)
 //@   ensures result == nil
 //@   ensures_exclusive dom(c.channels) == old(dom(c.channels)) && vals(c.channels) == old(vals(c.channels))
 //@   ensures nsends() <= 1
@@ -689,22 +689,22 @@ package frugal
 //@   modifies heap(CL!)
 
 // Reading the op id of a context changes nothing.
-//@ func lib.getOpID
+//@ func lib.getOpID(ctx)
 //@   modifies alloc
-//@ func lib.FContextImpl.RequestHeader
+//@ func lib.FContextImpl.RequestHeader(c, name)
 //@   noescape
 //@ iface lib.FContext.RequestHeader
 //@   same_as lib.FContextImpl.RequestHeader
-//@ func lib.FContextImpl.ResponseHeader
+//@ func lib.FContextImpl.ResponseHeader(c, name)
 //@   noescape
 
 // ---- routing (C01) on the NATS response path ------------------------------------------------------------------------
-//@ func lib.fNatsTransport.handleServiceNotAvailable
+//@ func lib.fNatsTransport.handleServiceNotAvailable(f, opId)
 //@   ensures ncalls("lib.fRegistry.dispatch") == 1
 //@   ensures callarg("lib.fRegistry.dispatch", 0, 1) == opId
 //@   modifies *
 
-//@ func lib.fHTTPTransport.Oneway
+//@ func lib.fHTTPTransport.Oneway(h, ctx, data)
 //@   requires h.requestSizeLimit <= 9223372036854775807
 //@   requires h.requestSizeLimit == 0 || h.requestSizeLimit >= 4
 //@   modifies *
@@ -716,7 +716,7 @@ package frugal
 // Process: a header error writes nothing; a known method is handed to its processor function exactly once
 // with the context just read; an unknown method gets exactly one UNKNOWN_METHOD exception message,
 // written while the processor's write mutex is held.
-//@ func lib.FBaseProcessor.Process
+//@ func lib.FBaseProcessor.Process(f, iprot, oprot)
 //@   ensures ncalls("lib.FProtocol.ReadRequestHeader") == 1
 //@   ensures callret("lib.FProtocol.ReadRequestHeader", 0, 1) != nil ==> result == callret("lib.FProtocol.ReadRequestHeader", 0, 1) && ncalls("lib.FProtocol.WriteResponseHeader") == 0 && ncalls("thrift.TProtocol.WriteMessageBegin") == 0 && ncalls("thrift.TProtocol.Flush") == 0 && ncalls("lib.FProcessorFunction.Process") == 0
 //@   ensures ncalls("lib.FProcessorFunction.Process") <= 1
@@ -730,7 +730,7 @@ package frugal
 //@   modifies *
 
 // SendReply: success is exactly one REPLY message for the method, written under the write mutex.
-//@ func lib.FBaseProcessorFunction.SendReply
+//@ func lib.FBaseProcessorFunction.SendReply(f, fctx, oprot, method, result)
 //@   ensures result == nil && ncalls("lib.FBaseProcessorFunction.trapError") == 0 ==> ncalls("lib.FProtocol.WriteResponseHeader") == 1 && ncalls("thrift.TProtocol.WriteMessageBegin") == 1 && ncalls("thrift.TStruct.Write") == 1 && ncalls("thrift.TProtocol.WriteMessageEnd") == 1 && ncalls("thrift.TProtocol.Flush") == 1
 //@   ensures result == nil && ncalls("lib.FBaseProcessorFunction.trapError") == 0 ==> inorder("lib.FProtocol.WriteResponseHeader", "thrift.TProtocol.WriteMessageBegin", "thrift.TStruct.Write", "thrift.TProtocol.WriteMessageEnd", "thrift.TProtocol.Flush")
 //@   ensures ncalls("thrift.TProtocol.WriteMessageBegin") == 1 ==> callarg("thrift.TProtocol.WriteMessageBegin", 0, 2) == method && callarg("thrift.TProtocol.WriteMessageBegin", 0, 3) == 2 && callarg("thrift.TProtocol.WriteMessageBegin", 0, 4) == 0
@@ -742,20 +742,20 @@ package frugal
 //@   modifies *
 
 // sendError: exactly one EXCEPTION message of the given kind, for the given context and method.
-//@ func lib.FBaseProcessorFunction.sendError
+//@ func lib.FBaseProcessorFunction.sendError(f, ctx, fctx, oprot, kind, method, message)
 //@   ensures ncalls("thrift.NewTApplicationException") == 1 && callarg("thrift.NewTApplicationException", 0, 0) == kind && callarg("thrift.NewTApplicationException", 0, 1) == message && result == callret("thrift.NewTApplicationException", 0, 0)
 //@   ensures ncalls("lib.FProtocol.WriteResponseHeader") == 1 && ncalls("thrift.TProtocol.WriteMessageBegin") == 1 && ncalls("thrift.TApplicationException.Write") == 1 && ncalls("thrift.TProtocol.WriteMessageEnd") == 1 && ncalls("thrift.TProtocol.Flush") == 1
 //@   ensures inorder("lib.FProtocol.WriteResponseHeader", "thrift.TProtocol.WriteMessageBegin", "thrift.TApplicationException.Write", "thrift.TProtocol.WriteMessageEnd", "thrift.TProtocol.Flush")
 //@   ensures callarg("lib.FProtocol.WriteResponseHeader", 0, 1) == fctx && callarg("thrift.TProtocol.WriteMessageBegin", 0, 2) == method && callarg("thrift.TProtocol.WriteMessageBegin", 0, 3) == 3
 //@   modifies *
 
-//@ func lib.FBaseProcessorFunction.SendError
+//@ func lib.FBaseProcessorFunction.SendError(f, fctx, oprot, kind, method, message)
 //@   ensures ncalls("lib.FBaseProcessorFunction.sendError") == 1 && nheld("lib.FBaseProcessorFunction.sendError", 0) == 1
 //@   ensures callarg("lib.FBaseProcessorFunction.sendError", 0, 2) == fctx && callarg("lib.FBaseProcessorFunction.sendError", 0, 3) == oprot && callarg("lib.FBaseProcessorFunction.sendError", 0, 4) == kind && result == callret("lib.FBaseProcessorFunction.sendError", 0, 0)
 //@   modifies *
 
 // A connection is served until its processor reports an error (EOF ends it quietly).
-//@ func lib.FSimpleServer.accept
+//@ func lib.FSimpleServer.accept(p, client)
 //@   ensures lastcallret("lib.FProcessor.Process", 0) != nil
 //@   modifies *
 
@@ -765,7 +765,7 @@ package frugal
 
 // Serve, after the quit signal: drain NATS, tell Stop, close the work queue, wait for the workers - in
 // exactly this order - and only then return.
-//@ func lib.fNatsServer.Serve
+//@ func lib.fNatsServer.Serve(f)
 //@   ensures result == nil ==> inorder("recv:lib.fNatsServer.quit", "call:lib.fNatsServer.drainNatsMessages", "send:", "close:lib.fNatsServer.workC", "call:sync.WaitGroup.Wait")
 //@   ensures result == nil ==> ncalls("lib.fNatsServer.drainNatsMessages") == 1 && ncalls("sync.WaitGroup.Wait") == 1
 //@   ensures result == nil ==> sendval(0) == callret("lib.fNatsServer.drainNatsMessages", 0, 0)
@@ -776,20 +776,20 @@ package frugal
 
 // drainNatsMessages: success means every subscription was drained, then the connection flushed, then a
 // barrier posted and its callback awaited.
-//@ func lib.fNatsServer.drainNatsMessages
+//@ func lib.fNatsServer.drainNatsMessages(f, subs)
 //@   ensures result == nil ==> forall(j, 0, len(subs), drained(subs[j]) >= old(drained(subs[j])) + 1)
 //@   ensures result == nil ==> ncalls("nats.go.Conn.Flush") == 1 && ncalls("nats.go.Conn.Barrier") == 1 && inorder("call:nats.go.Conn.Flush", "call:nats.go.Conn.Barrier", "recv:")
 //@   modifies *
 //@   loop 0 invariant subs == subs0 && 0 - 1 <= rangeindex && rangeindex < len(subs) && forall(j, 0, rangeindex + 1, drained(subs[j]) >= old(drained(subs[j])) + 1) && forall(j, 0, len(subs), drained(subs[j]) >= old(drained(subs[j])))
 
 // Stop: hand Serve a completion channel, close quit, and wait for Serve's answer.
-//@ func lib.fNatsServer.Stop
+//@ func lib.fNatsServer.Stop(f)
 //@   ensures inorder("send:lib.fNatsServer.quit", "close:lib.fNatsServer.quit", "recv:")
 //@   ensures nsends() == 1
 //@   modifies *
 
 // handler: exactly one enqueue of the message's bytes and reply subject, unless it has no reply subject.
-//@ func lib.fNatsServer.handler
+//@ func lib.fNatsServer.handler(f, msg)
 //@   ensures msg.Reply == "" ==> nsends() == 0
 //@   ensures msg.Reply != "" ==> nsends() == 1 && sendchan(0) == f.workC
 //@   modifies *
@@ -808,36 +808,36 @@ package frugal
 //@   functype
 //@   modifies *
 
-//@ func lib.fNatsSubscriberTransport.Subscribe
+//@ func lib.fNatsSubscriberTransport.Subscribe(n, topic, callback)
 //@   modifies *
 //@   loop 0 invariant n == n0 && n.isSubscribed && n.quitC != nil && !cclosed(n.quitC)
-//@ func lib.fNatsSubscriberTransport.Unsubscribe
+//@ func lib.fNatsSubscriberTransport.Unsubscribe(n)
 //@   check-close
 //@   modifies *
-//@ func lib.fStompSubscriberTransport.Subscribe
+//@ func lib.fStompSubscriberTransport.Subscribe(m, topic, callback)
 //@   modifies *
-//@ func lib.fStompSubscriberTransport.Unsubscribe
+//@ func lib.fStompSubscriberTransport.Unsubscribe(m)
 //@   check-close
 //@   modifies *
 
 // Publisher and subscriber derive the NATS subject from the topic in the same way.
-//@ func lib.fNatsPublisherTransport.formattedSubject
+//@ func lib.fNatsPublisherTransport.formattedSubject(n, subject)
 //@   ensures result == "frugal." + subject
-//@ func lib.fNatsSubscriberTransport.formattedSubject
+//@ func lib.fNatsSubscriberTransport.formattedSubject(n, subject)
 //@   ensures result == "frugal." + subject
-//@ func lib.fStompPublisherTransport.formatStompPublishTopic
+//@ func lib.fStompPublisherTransport.formatStompPublishTopic(m, topic)
 //@   ensures result == "/topic/" + m.topicPrefix + "frugal." + topic
 
 // A frame handed to the registry is a buffer of its own: readFrame allocates it, the read loop passes
 // exactly that buffer on (C01: a parked response is never overwritten by a later one).
-//@ func lib.fAdapterTransport.readFrame
+//@ func lib.fAdapterTransport.readFrame(f, framedTransport)
 //@   ensures err == nil ==> fresh(result)
 //@   modifies *
 
 // HTTP: one request, one Process call on buffers of the request's own (C14: a reply never contains bytes
 // of another request); the reply written is the encoding of exactly that output buffer.
 //@ immutable thrift.TMemoryBuffer.Buffer
-//@ func lib.NewFrugalHandlerFunc$1
+//@ func lib.NewFrugalHandlerFunc$1(w, r)
 //@   ensures ncalls("lib.FProcessor.Process") <= 1
 //@   ensures ncalls("lib.FProcessor.Process") == 1 ==> fresh(outBuf) && fresh(output) && output.Buffer == outBuf
 //@   ensures ncalls("lib.FProcessor.Process") == 1 ==> cast(callarg("lib.FProtocolFactory.GetProtocol", 1, 1), "thrift.TMemoryBuffer") == output && callarg("lib.FProcessor.Process", 0, 2) == callret("lib.FProtocolFactory.GetProtocol", 1, 0) && callarg("lib.FProcessor.Process", 0, 1) == callret("lib.FProtocolFactory.GetProtocol", 0, 0)
